@@ -34,10 +34,21 @@ type c04World struct {
 	// extraLevels > 0: the output that commits these withdrawals covers 2^extraLevels times as many
 	// withdrawals of other users (their subtrees are opaque hashes)
 	extraLevels int
+	outs        []c04Out
+	committed   int // records[:committed] are covered by an output
+	l2Block     uint64
+	notes       []string
 }
 
-func newC04World() *c04World {
-	tc := newTwoChain(tcOpts{nExecutors: 1})
+type c04Out struct {
+	o    *mOutput
+	from int // index in records of its first leaf
+}
+
+func newC04World() *c04World { return newC04WorldWith(0, 0) }
+
+func newC04WorldWith(otherFirst, otherAfter int) *c04World {
+	tc := newTwoChain(tcOpts{nExecutors: 1, otherFirst: otherFirst, otherAfter: otherAfter})
 	huge, _ := math.NewIntFromString("1361129467683753853853498429727072845824") // 2^130
 	for _, d := range c04Denoms {
 		tc.l1.Fund(tc.users[0].Addr, sdk.NewCoin(d, huge))
@@ -93,54 +104,77 @@ type c04Claimed struct {
 	selfPaired bool
 	treeSize   int
 	pos        int
+	output     int // index of the output it was claimed from
+	outputs    int // number of outputs at claim time
 }
 
-// settle builds the output over everything recorded so far by the published tree rule,
-// finalizes it and claims every withdrawal with a positive amount and a valid L1 recipient.
-func (w *c04World) settle(l2Block uint64) ([]c04Claimed, error) {
+// commit is what the executor does from time to time: an output over the withdrawals recorded
+// since the previous output, by the published tree rule.
+func (w *c04World) commit() error {
 	tc := w.tc
-	if len(w.records) == 0 {
-		return nil, nil
+	if len(w.records) == w.committed {
+		return nil
 	}
 	var ts []wd
-	for i, x := range w.records {
+	for i := w.committed; i < len(w.records); i++ {
+		x := w.records[i]
 		if x.Seq != uint64(i+1) {
-			return nil, fmt.Errorf("recorded L2 withdrawal sequences are not gap-free: position %d has sequence %d", i+1, x.Seq)
+			return fmt.Errorf("recorded L2 withdrawal sequences are not gap-free: position %d has sequence %d", i+1, x.Seq)
 		}
 		t, ok := tc.leafOf(x)
 		if !ok {
-			return nil, fmt.Errorf("L2 recorded %s withdrawal #%d of %s%s: the amount does not fit the 64-bit commitment format, so it can never be proven on L1", w.kinds[x.Seq], x.Seq, x.Amount, x.Denom)
+			return fmt.Errorf("L2 recorded %s withdrawal #%d of %s%s: the amount does not fit the 64-bit commitment format, so it can never be proven on L1", w.kinds[x.Seq], x.Seq, x.Amount, x.Denom)
 		}
 		ts = append(ts, t)
 	}
-	o, r := tc.proposeDeepTree(ts, l2Block, w.extraLevels)
+	w.l2Block += 10
+	o, r := tc.proposeDeepTree(ts, w.l2Block, w.extraLevels)
 	if !r.OK() {
-		return nil, fmt.Errorf("setup: propose failed: %v", r.Err)
+		return fmt.Errorf("setup: propose failed: %v", r.Err)
+	}
+	w.outs = append(w.outs, c04Out{o: o, from: w.committed})
+	w.committed = len(w.records)
+	return nil
+}
+
+// settle commits what is left, lets every output become final (with ordinary activity on the
+// neighbouring bridges in between) and claims every withdrawal with a positive amount and a valid
+// L1 recipient - those of the older outputs after the newer ones have become final too.
+func (w *c04World) settle(l2Block uint64) ([]c04Claimed, error) {
+	tc := w.tc
+	if err := w.commit(); err != nil {
+		return nil, err
+	}
+	for i, id := range tc.neighbours {
+		w.notes = append(w.notes, tc.neighbourChallenge(id, uint64(1+i%2)))
 	}
 	tc.l1.Advance(tc.period)
 	var out []c04Claimed
-	for i, t := range ts {
-		x := w.records[i]
-		if !x.Amount.IsPositive() {
-			continue
+	for _, co := range w.outs {
+		o := co.o
+		for i, t := range o.Tuples {
+			x := w.records[co.from+i]
+			if !x.Amount.IsPositive() {
+				continue
+			}
+			if _, err := sdk.AccAddressFromBech32(t.To); err != nil {
+				continue // not a valid L1 recipient: outside the statement
+			}
+			toAddr, _ := sdk.AccAddressFromBech32(t.To)
+			before := tc.l1.Balance(toAddr, t.Denom)
+			_, self := o.Tree.Proof(i)
+			res := tc.l1.Deliver(claimMsg(tc.users[3].Str, t, o, o.Index, i))
+			if !res.OK() {
+				return nil, fmt.Errorf("%s withdrawal #%d (%s%s from %q to %s) recorded by L2 cannot be finalized on L1 (output %d of %d, tree of %d leaves, position %d): %v\n%s",
+					w.kinds[x.Seq], x.Seq, x.Amount, t.Denom, truncStr(t.From, 30), t.To, o.Index, len(w.outs), len(o.Tuples)<<uint(minInt(w.extraLevels, 40)), i, res.Err, strings.Join(w.notes, "\n"))
+			}
+			if toAddr.Equals(sdk.AccAddress(ophosttypes.BridgeAddress(tc.bridgeID))) {
+				// paid from the escrow to the escrow: nothing to observe on the balance
+			} else if !tc.l1.Balance(toAddr, t.Denom).Sub(before).Equal(x.Amount) {
+				return nil, fmt.Errorf("claim of withdrawal #%d paid %s, recorded amount %s", x.Seq, tc.l1.Balance(toAddr, t.Denom).Sub(before), x.Amount)
+			}
+			out = append(out, c04Claimed{seq: x.Seq, kind: w.kinds[x.Seq], amount: x.Amount, selfPaired: self, treeSize: len(o.Tuples), pos: i, output: int(o.Index), outputs: len(w.outs)})
 		}
-		if _, err := sdk.AccAddressFromBech32(t.To); err != nil {
-			continue // not a valid L1 recipient: outside the statement
-		}
-		toAddr, _ := sdk.AccAddressFromBech32(t.To)
-		before := tc.l1.Balance(toAddr, t.Denom)
-		_, self := o.Tree.Proof(i)
-		res := tc.l1.Deliver(claimMsg(tc.users[3].Str, t, o, o.Index, i))
-		if !res.OK() {
-			return nil, fmt.Errorf("%s withdrawal #%d (%s%s from %q to %s) recorded by L2 cannot be finalized on L1 (tree of %d leaves, position %d): %v",
-				w.kinds[x.Seq], x.Seq, x.Amount, t.Denom, truncStr(t.From, 30), t.To, len(ts)<<uint(minInt(w.extraLevels, 40)), i, res.Err)
-		}
-		if toAddr.Equals(sdk.AccAddress(ophosttypes.BridgeAddress(tc.bridgeID))) {
-			// paid from the escrow to the escrow: nothing to observe on the balance
-		} else if !tc.l1.Balance(toAddr, t.Denom).Sub(before).Equal(x.Amount) {
-			return nil, fmt.Errorf("claim of withdrawal #%d paid %s, recorded amount %s", x.Seq, tc.l1.Balance(toAddr, t.Denom).Sub(before), x.Amount)
-		}
-		out = append(out, c04Claimed{seq: x.Seq, kind: w.kinds[x.Seq], amount: x.Amount, selfPaired: self, treeSize: len(ts), pos: i})
 	}
 	return out, nil
 }
@@ -178,8 +212,11 @@ func TestC04Rapid(t *testing.T) {
 	rec := evid.For("C04")
 	runRapid(t, 600, 6000, func(rt *rapid.T) {
 		c := rec.Begin()
-		w := newC04World()
+		w := newC04WorldWith(rapid.IntRange(0, 1).Draw(rt, "otherFirst"), rapid.IntRange(0, 1).Draw(rt, "otherAfter"))
 		tc := w.tc
+		if len(tc.neighbours) > 0 {
+			c.Class("l1-with-neighbouring-bridges")
+		}
 		var log []string
 		fail := func(err error) {
 			rt.Fatalf("C04 violated: %v\nhistory:\n%s", err, strings.Join(log, "\n"))
@@ -205,7 +242,13 @@ func TestC04Rapid(t *testing.T) {
 			if nOps > 12 {
 				amt = math.NewInt(int64(rapid.IntRange(1, 1000).Draw(rt, "small")))
 			}
-			switch drawWeighted(rt, "op", []weighted{{"deposit-withdraw", 6}, {"refund", 4}, {"withdraw-more", 2}, {"hook-withdraw", 3}, {"failing-hook", 3}}) {
+			switch drawWeighted(rt, "op", []weighted{{"deposit-withdraw", 6}, {"refund", 4}, {"withdraw-more", 2}, {"hook-withdraw", 3}, {"failing-hook", 3}, {"commit-output", 2}}) {
+			case "commit-output":
+				// the executor submits an output over what has been recorded since the last one
+				if err := w.commit(); err != nil {
+					fail(err)
+				}
+				log = append(log, fmt.Sprintf("output submitted (%d so far) over withdrawals up to #%d", len(w.outs), w.committed))
 			case "failing-hook":
 				// a deposit (also of nothing: amount 0) that carries hook data which fails on L2: the deposit is
 				// credited and taken back, L2 records the refund - which must be claimable like any other
@@ -298,6 +341,9 @@ func TestC04Rapid(t *testing.T) {
 			}
 			if cl.kind == "refund" {
 				nt = true
+			}
+			if cl.output < cl.outputs {
+				c.Class("claimed-from-an-output-that-is-not-the-newest-final-one")
 			}
 			shape += fmt.Sprintf("%s%d/%v/%d;", cl.kind[:1], cl.pos, cl.selfPaired, cl.amount.BigInt().BitLen())
 		}
